@@ -10,17 +10,15 @@
 (*          class, round trips, chains, n-port against two-port            *)
 (* The output file is named by the environment variable NETPARAMS_OUT.     *)
 (***************************************************************************)
-EXTENDS NetParams, TLC, Json, IOUtils, SequencesExt
+EXTENDS NetParamsCases, Json, IOUtils, SequencesExt
 
 ASSUME LegalClosed
 ASSUME CountsAsDocumented
 ASSUME ResultFits
 ASSUME Z0RuleMatchesRelations
 ASSUME AllRelationsWellFormed
-
-MaxN == 6
-Z0Classes == {"eq", "uneq", "cplx"}
-Aliasing == {0, 1}
+ASSUME NetGeneric
+ASSUME NetExistenceAsExpected
 
 RelRows ==
     SetToSeq({[type |-> t, n |-> n, dep |-> Relation(t, n).dep,
@@ -59,55 +57,38 @@ ConvTable ==
                                          b \in Types \cup {"BAD"}} :
                     a \in Types})
 
-Case(kind, a, b, c, n, al, z) ==
-    [kind |-> kind, from |-> a, via |-> b, to |-> c, n |-> n,
-     alias |-> al, z0 |-> z]
+NetRows ==
+    SetToSeq({[net |-> net, n |-> 2, nelem |-> NetElems(net, 2),
+               ekind |-> NetElemKinds(net, 2),
+               eqs |-> NetConstraints(net, 2)] : net \in NetNames2}
+             \cup
+             {[net |-> net, n |-> n, nelem |-> NetElems(net, n),
+               ekind |-> NetElemKinds(net, n),
+               eqs |-> NetConstraints(net, n)] : net \in NetNamesN, n \in 2..3})
 
-DPairs(S, T) == {p \in S \X T : p[1] # p[2]}
-DTriples(S, T, U) ==
-    {p \in S \X T \X U : p[1] # p[2] /\ p[1] # p[3] /\ p[2] # p[3]}
+NetExistRows ==
+    SetToSeq({[net |-> net, n |-> 2, type |-> t,
+               ex |-> IF TypeExists(net, 2, t) THEN 1 ELSE 0] :
+                 net \in NetNames2, t \in MatrixTypes}
+             \cup
+             {[net |-> net, n |-> n, type |-> t,
+               ex |-> IF TypeExists(net, n, t) THEN 1 ELSE 0] :
+                 net \in NetNamesN, n \in 2..3, t \in NPortTypes}
+             \cup
+             {[net |-> net, n |-> 2, type |-> "ZIN",
+               ex |-> IF ZinExists(net, 2) THEN 1 ELSE 0] : net \in NetNames2}
+             \cup
+             {[net |-> net, n |-> n, type |-> "ZIN",
+               ex |-> IF ZinExists(net, n) THEN 1 ELSE 0] :
+                 net \in NetNamesN, n \in 2..3})
 
-Cases ==
-    SetToSeq(
-      (* the 72 two-port functions *)
-      {Case("conv2", p[1], "-", p[2], 2, al, z) :
-         p \in DPairs(MatrixTypes, MatrixTypes), al \in Aliasing,
-         z \in Z0Classes}
-      \cup
-      (* the 6 n-port functions, n = 1..MaxN *)
-      {Case("convn", p[1], "-", p[2], n, al, z) :
-         p \in DPairs(NPortTypes, NPortTypes), n \in 1..MaxN,
-         al \in Aliasing, z \in Z0Classes}
-      \cup
-      (* input impedances: 9 two-port and 3 n-port functions *)
-      {Case("zin2", a, "-", "ZIN", 2, al, z) :
-         a \in MatrixTypes, al \in Aliasing, z \in Z0Classes}
-      \cup
-      {Case("zinn", a, "-", "ZIN", n, al, z) :
-         a \in NPortTypes, n \in 1..MaxN, al \in Aliasing, z \in Z0Classes}
-      \cup
-      (* round trips X -> Y -> X *)
-      {Case("round2", p[1], p[2], p[1], 2, 0, z) :
-         p \in DPairs(MatrixTypes, MatrixTypes), z \in Z0Classes}
-      \cup
-      {Case("roundn", p[1], p[2], p[1], n, 0, z) :
-         p \in DPairs(NPortTypes, NPortTypes), n \in 1..MaxN,
-         z \in Z0Classes}
-      \cup
-      (* chains X -> Y -> Z against X -> Z *)
-      {Case("chain2", p[1], p[2], p[3], 2, 0, z) :
-         p \in DTriples(MatrixTypes, MatrixTypes, MatrixTypes \cup {"ZIN"}),
-         z \in Z0Classes}
-      \cup
-      (* n-port functions at n = 2 against the two-port functions *)
-      {Case("nvs2", p[1], "-", p[2], 2, 0, z) :
-         p \in DPairs(NPortTypes, NPortTypes \cup {"ZIN"}),
-         z \in Z0Classes})
+Cases == SetToSeq(CaseSet)
 
 (* every vnaconv function of the manual is named by some case *)
 FnOfCase(k) ==
     CASE k.kind \in {"conv2", "zin2"} -> {Fn2(k.from, k.to)}
       [] k.kind \in {"convn", "zinn"} -> {FnN(k.from, k.to)}
+      [] k.kind \in {"sconv2", "szin2", "sconvn", "szinn"} -> {}
       [] OTHER -> {}
 AllFunctionsCovered ==
     Cardinality(UNION {FnOfCase(Cases[i]) : i \in 1..Len(Cases)}) = 72 + 9 + 6 + 3
@@ -117,6 +98,8 @@ Doc == [types |-> TypeSeq,
         wave |-> WaveDef,
         zin |-> ZinDef,
         rel |-> RelRows,
+        nets |-> NetRows,
+        netexist |-> NetExistRows,
         conv |-> ConvTable,
         cases |-> Cases]
 
